@@ -418,6 +418,39 @@ func piecesString(pcs []piece) string {
 
 const cGetData = "(" + pClient + ".Fetcher).GetData"
 
+// fetchMethods: the methods of the client package's interfaces that fetch one resource by path — (…, path string) ([]byte,
+// error): Fetcher.GetData and any context-taking sibling. The composition stops at these.
+func fetchMethods(w *World) []string {
+	out := []string{cGetData}
+	p := w.pkg(pClient)
+	if p == nil {
+		return out
+	}
+	sc := p.Types.Scope()
+	for _, n := range sc.Names() {
+		tn, ok := sc.Lookup(n).(*types.TypeName)
+		if !ok {
+			continue
+		}
+		it, ok := tn.Type().Underlying().(*types.Interface)
+		if !ok {
+			continue
+		}
+		for i := 0; i < it.NumMethods(); i++ {
+			m := it.Method(i)
+			sg := m.Type().(*types.Signature)
+			if sg.Params().Len() == 0 || sg.Results().Len() != 2 || typeStr(sg.Params().At(sg.Params().Len()-1).Type()) != "string" || typeStr(sg.Results().At(0).Type()) != "[]byte" {
+				continue
+			}
+			name := "(" + pClient + "." + n + ")." + m.Name()
+			if name != cGetData {
+				out = append(out, name)
+			}
+		}
+	}
+	return out
+}
+
 // ruleTileAddressing: C18.a (path layout and digit groups) and C18.c (coordinates and partial-width suffix) on the
 // composition tileReader.ReadTiles ∘ client (everything inlined down to Fetcher.GetData).
 func ruleTileAddressing(w *World, r *Run, h int64) {
@@ -440,6 +473,7 @@ func ruleTileAddressing(w *World, r *Run, h int64) {
 		r.Undecided("C18.c", rt, "", "anchor function not found in the type-checked program")
 		return
 	}
+	fetchNames := fetchMethods(w)
 	e := w.engine(8, 2)
 	e.loopBound, e.maxRec = 2, 2 // same bounds in both tiers: two tiles per request, up to three digit groups (index < 10^9)
 	sums := e.Explore(fn)
@@ -461,8 +495,8 @@ func ruleTileAddressing(w *World, r *Run, h int64) {
 	for i := range sums {
 		s := sums[i]
 		pieceCtx = &sums[i]
-		for _, gd := range calls(s, cGetData) {
-			if u, ok := parseTileURL(mergeLits(strPieces(gd.Args[0])), base); ok && u.groups > maxGroups {
+		for _, gd := range calls(s, fetchNames...) {
+			if u, ok := parseTileURL(mergeLits(strPieces(gd.Args[len(gd.Args)-1])), base); ok && u.groups > maxGroups {
 				maxGroups = u.groups
 			}
 		}
@@ -470,10 +504,10 @@ func ruleTileAddressing(w *World, r *Run, h int64) {
 	for i := range sums {
 		s := sums[i]
 		pieceCtx = &sums[i]
-		gds := calls(s, cGetData)
+		gds := calls(s, fetchNames...)
 		for _, gd := range gds {
 			nReq++
-			pcs := mergeLits(strPieces(gd.Args[0]))
+			pcs := mergeLits(strPieces(gd.Args[len(gd.Args)-1]))
 			u, ok := parseTileURL(pcs, base)
 			if !ok {
 				r.Fail("C18.a", rt+" ∘ client | tile URL follows the reference layout tile/<H>/<L>/[x<NNN>/]*<NNN>[.p/<W>]", w.pos(gd.Pos), "the URL "+piecesString(pcs)+" "+u.why+": it is not the path tlog.Tile.Path gives for the same tile")
